@@ -8,9 +8,13 @@ use jsonwebtoken::{decode, DecodingKey, Validation};
 use mdb_shard::file_structs::MDBFileInfo;
 use merklehash::MerkleHash;
 use more_asserts::*;
-use tokio::sync::{Mutex, OwnedSemaphorePermit, Semaphore};
+#[cfg(not(xet_verif))]
+use tokio::sync::Mutex;
+use tokio::sync::{OwnedSemaphorePermit, Semaphore};
 use tokio::task::JoinSet;
 use utils::progress::ProgressUpdater;
+#[cfg(xet_verif)]
+use utils::verif::tsync::Mutex;
 use xet_threadpool::ThreadPool;
 
 use crate::configurations::*;
